@@ -117,6 +117,7 @@ impl MutationParser {
     }
 
     pub fn parse(p: &str, data_model: &DataModel) -> Result<Self, Error> {
+        super::check_nesting_depth(p)?;
         let mut mutation = MutationParser::new();
 
         let parse = match PestParser::parse(Rule::mutation, p) {
